@@ -573,7 +573,7 @@ def text_bytes(s):
 
 def gen_cases(rng, quick):
     cases = []
-    n_small = 9000 if quick else 120000
+    n_small = 9000 if quick else 70000
     # ---- structured: valid encodings and single / double mutations of them
     for i in range(n_small):
         dim = rng.choice([2, 2, 2, 3, 3, 4])
@@ -664,6 +664,22 @@ def gen_cases(rng, quick):
         cases.append(Case('J', text_bytes(gj_chain(d)), 'geojson:nest', d))
         cases.append(Case('J', text_bytes(gj_chain(d, close=False)), 'geojson:nest-unbalanced', d))
         cases.append(Case('J', text_bytes('{"type":"Point","coordinates":' + '[' * d + ']' * d + '}'), 'geojson:array-nest'))
+    # ---- every container type nested inside its own type code (the typed containers descend through readChild -> readGeometry),
+    #      and mixed, just beyond the limit, well beyond it and as deep as 1 MiB allows: all must be rejected cleanly
+    for code in (4, 5, 6, 7, 9, 10, 11, 12):
+        for d in (201, 300, 1000, MIB // 9 - 2):
+            cases.append(Case('B', wkb_chain(d, code), 'wkb:nest-typed', d))
+        cases.append(Case('H', wkb_chain(300, code).hex().encode(), 'hex:nest-typed', 300))
+    for d in (201, 300, 1000, MIB // 9 - 2):
+        mixed = b''.join(wkb_hdr((4, 5, 6, 7, 9, 10, 11, 12)[i % 8], 1, big=(i % 3 == 0)) for i in range(d)) + wkb_hdr(7, 0)
+        cases.append(Case('B', mixed, 'wkb:nest-typed', d))
+    for tag, leaf in (('GEOMETRYCOLLECTION', 'POINT EMPTY'), ('MULTICURVE', '(0 0,1 1)'), ('COMPOUNDCURVE', '(0 0,1 1)'), ('CURVEPOLYGON', '(0 0,1 0,1 1,0 0)'),
+                      ('MULTISURFACE', '((0 0,1 0,1 1,0 0))')):
+        for d in (201, 300, 1000, MIB // (len(tag) + 2) - 4):
+            cases.append(Case('T', text_bytes(wkt_chain(d, tag, leaf)), 'wkt:nest-typed', d))
+    for d in (201, 300, 1000, MIB // 45 - 2):
+        cases.append(Case('J', text_bytes(gj_chain(d)), 'geojson:nest-typed', d))
+        cases.append(Case('J', text_bytes('{"type":"Feature","properties":null,"geometry":' + gj_chain(d) + '}'), 'geojson:nest-typed', d))
     # ---- nesting as deep as 1 MiB allows (the model: depth = |input|/9 + 1): predicted stack overflow on the unchanged tree
     cases.append(Case('B', wkb_chain(MIB // 9 - 1), 'wkb:nest-max', MIB // 9))
     cases.append(Case('T', text_bytes(wkt_chain(MIB // 20 - 1)), 'wkt:nest-max', MIB // 20))
@@ -878,7 +894,7 @@ def run(ctx):
                 skipped['predicted-UB'] += 1; continue
         elif depth > 2000 and not cfg['depth']:
             n_deep += 1
-            if n_deep > (10 if quick else 30):
+            if n_deep > (28 if quick else 60):
                 skipped['predicted-deep'] += 1; continue
         run_idx.append(i)
     t0 = time.time()
@@ -1007,7 +1023,7 @@ def run(ctx):
     # number grammar: the model's is_number against the tokenizer's own classification, through a one-coordinate probe
     number_grammar(ctx, drv, hexe, margs, rng)
     # generator self-check: the case splits of the proofs must have been drawn
-    need = ['wkb:count', 'wkb:type', 'wkb:truncate', 'wkb:nest', 'wkb:nest-inflated', 'wkt:nest', 'wkt:token-soup', 'wkt:swap-number', 'hex:hex-badchar', 'geojson:wrong-type', 'wkb:flat', 'wkt:flat', 'geojson:flat']
+    need = ['wkb:count', 'wkb:type', 'wkb:truncate', 'wkb:nest', 'wkb:nest-typed', 'wkt:nest-typed', 'geojson:nest-typed', 'wkb:nest-inflated', 'wkt:nest', 'wkt:token-soup', 'wkt:swap-number', 'hex:hex-badchar', 'geojson:wrong-type', 'wkb:flat', 'wkt:flat', 'geojson:flat']
     for n in need:
         if not any(k.startswith(n) for k in dist):
             ctx.broken.append(dict(kind='generator', name='distribution', detail='no case of class %s was run' % n))
